@@ -1,10 +1,866 @@
-//! C35 — not built yet.
+//! C35 Printed configuration reads back identically.
+//!
+//! A = configuration obtained exactly like `main.rs` does (clap command built by
+//! `Operation::config_args(Config::config_args(..))`, `Config::from_arg_matches`,
+//! `Operation::from_arg_matches` for the `config` sub-command) from a generated command line,
+//! optionally on top of a generated base config file; F = what `routinator config` prints
+//! (`println!("{}", config)`); B = configuration read from `-c F` in the same working directory.
+//! B must load and equal A field by field.
+
+use std::collections::{BTreeMap, BTreeSet};
+use std::path::{Path, PathBuf};
+use std::sync::Mutex;
+
+use clap::Command;
+use proptest::prelude::*;
+use routinator::{Config, Operation};
+use serde::{Deserialize, Serialize};
 
 use crate::core::*;
 
-pub const IMPLEMENTED: bool = false;
+//------------ option table ------------------------------------------------------------------------
 
-pub fn run(_ctx: &Ctx, _rep: &mut Report, _replay: Option<&serde_json::Value>) {
-    eprintln!("C35: check not implemented");
-    std::process::exit(2);
+#[derive(Clone, Copy, Debug, PartialEq, Eq)]
+enum Kind {
+    Flag,
+    /// u64 / usize on the command line
+    Num,
+    /// u8 with an upper limit
+    Small(u8),
+    Str,
+    PathV,
+    PathList,
+    StrList,
+    Policy,
+    Fallback,
+    Ip,
+    SockList,
+    /// -v / -q, value = count
+    Count,
+    Facility,
+    Logfile,
+}
+
+struct Opt {
+    /// long option name on the command line
+    cli: &'static str,
+    /// key in the config file ("" = none of its own)
+    key: &'static str,
+    /// field of `Config`
+    field: &'static str,
+    kind: Kind,
+    /// argument of the sub-command (server options) rather than global
+    server: bool,
+}
+
+const fn o(cli: &'static str, key: &'static str, field: &'static str, kind: Kind, server: bool) -> Opt {
+    Opt { cli, key, field, kind, server }
+}
+
+use Kind::*;
+static OPTS: &[Opt] = &[
+    o("repository-dir", "repository-dir", "cache_dir", PathV, false),
+    o("no-rir-tals", "no-rir-tals", "no_rir_tals", Flag, false),
+    o("tal", "tals", "bundled_tals", StrList, false),
+    o("extra-tals-dir", "extra-tals-dir", "extra_tals_dir", PathV, false),
+    o("exceptions", "exceptions", "exceptions", PathList, false),
+    o("strict", "strict", "strict", Flag, false),
+    o("stale", "stale", "stale", Policy, false),
+    o("unsafe-vrps", "unsafe-vrps", "unsafe_vrps", Policy, false),
+    o("unknown-objects", "unknown-objects", "unknown_objects", Policy, false),
+    o("limit-v4-len", "limit-v4-len", "limit_v4_len", Small(32), false),
+    o("limit-v6-len", "limit-v6-len", "limit_v6_len", Small(128), false),
+    o("allow-dubious-hosts", "allow-dubious-hosts", "allow_dubious_hosts", Flag, false),
+    o("disable-rsync", "disable-rsync", "disable_rsync", Flag, false),
+    o("rsync-command", "rsync-command", "rsync_command", Str, false),
+    o("rsync-timeout", "rsync-timeout", "rsync_timeout", Num, false),
+    o("disable-rrdp", "disable-rrdp", "disable_rrdp", Flag, false),
+    o("rrdp-max-delta-count", "rrdp-max-delta-count", "rrdp_max_delta_count", Num, false),
+    o("rrdp-max-delta-list-len", "rrdp-max-delta-list-len", "rrdp_max_delta_list_len", Num, false),
+    o("rrdp-fallback", "rrdp-fallback", "rrdp_fallback", Fallback, false),
+    o("rrdp-fallback-time", "rrdp-fallback-time", "rrdp_fallback_time", Num, false),
+    o("rrdp-timeout", "rrdp-timeout", "rrdp_timeout", Num, false),
+    o("rrdp-read-timeout", "rrdp-read-timeout", "rrdp_read_timeout", Num, false),
+    o("rrdp-connect-timeout", "rrdp-connect-timeout", "rrdp_connect_timeout", Num, false),
+    o("rrdp-tcp-keepalive", "rrdp-tcp-keepalive", "rrdp_tcp_keepalive", Num, false),
+    o("rrdp-local-addr", "rrdp-local-addr", "rrdp_local_addr", Ip, false),
+    o("rrdp-root-cert", "rrdp-root-certs", "rrdp_root_certs", PathList, false),
+    o("rrdp-proxy", "rrdp-proxies", "rrdp_proxies", StrList, false),
+    o("max-object-size", "max-object-size", "max_object_size", Num, false),
+    o("max-ca-depth", "max-ca-depth", "max_ca_depth", Num, false),
+    o("enable-bgpsec", "enable-bgpsec", "enable_bgpsec", Flag, false),
+    o("enable-aspa", "enable-aspa", "enable_aspa", Flag, false),
+    o("dirty-repository", "dirty", "dirty_repository", Flag, false),
+    o("validation-threads", "validation-threads", "validation_threads", Num, false),
+    o("verbose", "log-level", "log_level", Count, false),
+    o("quiet", "log-level", "log_level", Count, false),
+    o("syslog", "log", "log_target", Flag, false),
+    o("syslog-facility", "syslog-facility", "log_target", Facility, false),
+    o("logfile", "log-file", "log_target", Logfile, false),
+    o("log-repository-issues", "log-repository-issues", "log_repository_issues", Flag, false),
+    // server options (arguments of the `config` and `server` sub-commands)
+    o("refresh", "refresh", "refresh", Num, true),
+    o("min-refresh", "min-refresh", "min_refresh", Num, true),
+    o("retry", "retry", "retry", Num, true),
+    o("expire", "expire", "expire", Num, true),
+    o("history", "history-size", "history_size", Num, true),
+    o("rtr", "rtr-listen", "rtr_listen", SockList, true),
+    o("rtr-tls", "rtr-tls-listen", "rtr_tls_listen", SockList, true),
+    o("http", "http-listen", "http_listen", SockList, true),
+    o("http-tls", "http-tls-listen", "http_tls_listen", SockList, true),
+    o("systemd-listen", "systemd-listen", "systemd_listen", Flag, true),
+    o("rtr-tcp-keepalive", "rtr-tcp-keepalive", "rtr_tcp_keepalive", Num, true),
+    o("rtr-client-metrics", "rtr-client-metrics", "rtr_client_metrics", Flag, true),
+    o("rtr-tls-key", "rtr-tls-key", "rtr_tls_key", PathV, true),
+    o("rtr-tls-cert", "rtr-tls-cert", "rtr_tls_cert", PathV, true),
+    o("http-tls-key", "http-tls-key", "http_tls_key", PathV, true),
+    o("http-tls-cert", "http-tls-cert", "http_tls_cert", PathV, true),
+    o("pid-file", "pid-file", "pid_file", PathV, true),
+    o("working-dir", "working-dir", "working_dir", PathV, true),
+    o("chroot", "chroot", "chroot", PathV, true),
+    o("user", "user", "user", Str, true),
+    o("group", "group", "group", Str, true),
+];
+
+/// Documented as command-line only (manual: `--config`, `--fresh`), not part of the printed file.
+const CLI_ONLY: &[&str] = &["config", "fresh", "help", "version"];
+
+fn opt(cli: &str) -> Option<&'static Opt> {
+    OPTS.iter().find(|o| o.cli == cli)
+}
+
+//------------ case --------------------------------------------------------------------------------
+
+#[derive(Serialize, Deserialize, Clone, Debug, PartialEq, Eq)]
+pub struct Arg {
+    /// long option name without the dashes
+    pub opt: String,
+    /// values; one `--opt=value` per entry (flags: empty; -v/-q: one entry holding the count)
+    pub vals: Vec<String>,
+}
+
+#[derive(Serialize, Deserialize, Clone, Debug, PartialEq, Eq)]
+pub struct Case {
+    /// Base config file: (key, TOML text of the value). `repository-dir` is added if missing.
+    pub base: Option<Vec<(String, String)>>,
+    pub args: Vec<Arg>,
+}
+
+impl Case {
+    fn command_line(&self, base_path: Option<&Path>) -> Vec<String> {
+        let mut v = vec!["routinator".to_string()];
+        if let Some(p) = base_path {
+            v.push(format!("--config={}", p.display()));
+        }
+        let push = |v: &mut Vec<String>, a: &Arg| match opt(&a.opt).map(|o| o.kind) {
+            Some(Flag) => v.push(format!("--{}", a.opt)),
+            Some(Count) => {
+                let n: usize = a.vals.first().and_then(|s| s.parse().ok()).unwrap_or(1);
+                for _ in 0..n {
+                    v.push(format!("--{}", a.opt));
+                }
+            }
+            _ => {
+                for val in &a.vals {
+                    v.push(format!("--{}={}", a.opt, val));
+                }
+            }
+        };
+        for a in self.args.iter().filter(|a| opt(&a.opt).map(|o| !o.server).unwrap_or(true)) {
+            push(&mut v, a);
+        }
+        v.push("config".to_string());
+        for a in self.args.iter().filter(|a| opt(&a.opt).map(|o| o.server).unwrap_or(false)) {
+            push(&mut v, a);
+        }
+        v
+    }
+}
+
+//------------ value classes -----------------------------------------------------------------------
+
+const I64MAX: u64 = i64::MAX as u64;
+
+fn num_class(s: &str) -> &'static str {
+    match s.parse::<u64>() {
+        Ok(0) => "zero",
+        Ok(v) if v <= 65535 => "le_u16",
+        Ok(v) if v <= I64MAX => "gt_u16",
+        Ok(_) => "gt_i64max",
+        Err(_) => "not_a_number",
+    }
+}
+
+fn str_class(s: &str) -> &'static str {
+    if s.is_empty() {
+        "empty"
+    } else if s.chars().any(|c| c == '\n' || c == '\r') {
+        "newline"
+    } else if s.chars().any(|c| c.is_control()) {
+        "control"
+    } else if s.contains('"') || s.contains('\'') {
+        "quote"
+    } else if s.contains('\\') {
+        "backslash"
+    } else if !s.is_ascii() {
+        "unicode"
+    } else {
+        "plain"
+    }
+}
+
+fn facility_class(s: &str) -> String {
+    let l = s.to_lowercase();
+    l.strip_prefix("log_").unwrap_or(&l).to_string()
+}
+
+/// Class of an option's value, the second half of a failure key.
+fn value_class(o: &Opt, vals: &[String]) -> String {
+    match o.kind {
+        Flag => "set".into(),
+        Num | Small(_) => vals.first().map(|s| num_class(s)).unwrap_or("none").into(),
+        Count => format!("count{}", vals.first().cloned().unwrap_or_default()),
+        Facility => vals.first().map(|s| facility_class(s)).unwrap_or_default(),
+        Policy | Fallback | Ip => vals.first().cloned().unwrap_or_default(),
+        Str | PathV | Logfile | PathList | StrList | SockList => {
+            // worst class among the values
+            let order = ["newline", "control", "quote", "backslash", "unicode", "empty", "plain"];
+            let classes: Vec<&str> = vals.iter().map(|s| str_class(s)).collect();
+            order.iter().find(|c| classes.contains(c)).copied().unwrap_or("none").into()
+        }
+    }
+}
+
+fn key_for(opt: &str, class: &str) -> String {
+    format!("C35/option={}/class={}", opt, class)
+}
+
+//------------ generators --------------------------------------------------------------------------
+
+fn num_strategy() -> BoxedStrategy<String> {
+    prop_oneof![
+        Just(0u64),
+        Just(1),
+        Just(65535),
+        Just(65536),
+        Just(1 << 32),
+        Just(I64MAX),
+        Just(I64MAX + 1),
+        Just(u64::MAX),
+        2u64..1000,
+        65537u64..(1 << 32),
+        any::<u64>(),
+    ]
+    .prop_map(|v| v.to_string())
+    .boxed()
+}
+
+fn text_strategy() -> BoxedStrategy<String> {
+    prop_oneof![
+        Just("rsync".to_string()),
+        Just("a b".to_string()),
+        Just("say \"hi\"".to_string()),
+        Just("it's".to_string()),
+        Just("line1\nline2".to_string()),
+        Just("tab\there".to_string()),
+        Just("back\\slash".to_string()),
+        Just("Grüße ☃ 𝄞 日本".to_string()),
+        Just("".to_string()),
+        Just("-x".to_string()),
+        Just("bell\u{7}del\u{7f}".to_string()),
+        Just("#not a comment".to_string()),
+        Just("'''".to_string()),
+        Just("\"\"\"".to_string()),
+        "[a-zA-Z0-9_.:/@-]{1,12}",
+        "\\PC{1,8}",
+    ]
+    .boxed()
+}
+
+fn path_strategy() -> BoxedStrategy<String> {
+    prop_oneof![
+        Just("/abs/dir/file".to_string()),
+        Just("rel/file".to_string()),
+        Just("./dot".to_string()),
+        Just("../up/x".to_string()),
+        Just("/".to_string()),
+        Just("trailing/".to_string()),
+        Just("with space/x y".to_string()),
+        Just("qu\"ote".to_string()),
+        Just("dîr/ünï ☃".to_string()),
+        Just("new\nline".to_string()),
+        Just("back\\slash".to_string()),
+        Just("/a//b/./c".to_string()),
+        "[a-z0-9_./-]{1,16}",
+    ]
+    .boxed()
+}
+
+const FACILITIES: [&str; 24] = [
+    "kern", "user", "mail", "daemon", "auth", "syslog", "lpr", "news", "uucp", "cron", "authpriv", "ftp", "ntp", "audit", "alert", "clock_daemon", "local0", "local1", "local2", "local3",
+    "local4", "local5", "local6", "local7",
+];
+
+fn facility_strategy() -> BoxedStrategy<String> {
+    (prop::sample::select(FACILITIES.to_vec()), 0u8..4)
+        .prop_map(|(f, form)| match form {
+            0 => f.to_string(),
+            1 => format!("LOG_{}", f.to_uppercase()),
+            2 => format!("log_{}", f),
+            _ => f.to_uppercase(),
+        })
+        .boxed()
+}
+
+fn sock_strategy() -> BoxedStrategy<String> {
+    prop_oneof![
+        Just("127.0.0.1:3323".to_string()),
+        Just("0.0.0.0:0".to_string()),
+        Just("192.0.2.1:65535".to_string()),
+        Just("[::1]:323".to_string()),
+        Just("[2001:db8::4]:8323".to_string()),
+        Just("[::ffff:192.0.2.128]:80".to_string()),
+        Just("[::]:1".to_string()),
+        Just("[fe80::1%3]:179".to_string()),
+        (any::<[u8; 4]>(), any::<u16>()).prop_map(|(a, p)| format!("{}.{}.{}.{}:{}", a[0], a[1], a[2], a[3], p)),
+        (any::<[u16; 8]>(), any::<u16>()).prop_map(|(a, p)| format!("[{}]:{}", std::net::Ipv6Addr::from(a), p)),
+    ]
+    .boxed()
+}
+
+fn ip_strategy() -> BoxedStrategy<String> {
+    prop_oneof![
+        Just("127.0.0.1".to_string()),
+        Just("::1".to_string()),
+        Just("2001:db8::1".to_string()),
+        Just("::ffff:10.0.0.1".to_string()),
+        Just("0.0.0.0".to_string()),
+        any::<[u8; 4]>().prop_map(|a| std::net::Ipv4Addr::from(a).to_string()),
+        any::<[u16; 8]>().prop_map(|a| std::net::Ipv6Addr::from(a).to_string()),
+    ]
+    .boxed()
+}
+
+fn list_of(s: BoxedStrategy<String>) -> BoxedStrategy<Vec<String>> {
+    // empty list = option absent; 1 and 3 are the documented boundary sizes, 2 for good measure
+    prop_oneof![3 => prop::collection::vec(s.clone(), 1..=1), 1 => prop::collection::vec(s.clone(), 2..=2), 3 => prop::collection::vec(s, 3..=3)].boxed()
+}
+
+fn one(s: BoxedStrategy<String>) -> BoxedStrategy<Vec<String>> {
+    s.prop_map(|x| vec![x]).boxed()
+}
+
+fn tal_name_strategy() -> BoxedStrategy<String> {
+    // any string is accepted at configuration time ("list" prints the list and exits: not a configuration)
+    prop_oneof![Just("nlnetlabs-testbed".to_string()), Just("apnic-testbed".to_string()), Just("arin-ote".to_string()), Just("no-such-tal".to_string()), "[a-z-]{1,10}".prop_filter("list is a command", |s| s != "list")]
+        .boxed()
+}
+
+fn vals_strategy(o: &Opt) -> BoxedStrategy<Vec<String>> {
+    match o.kind {
+        Flag => Just(Vec::new()).boxed(),
+        Num => one(num_strategy()),
+        Small(max) => one(prop_oneof![Just(0u8), Just(1), Just(max), 0..=max].prop_map(|v| v.to_string()).boxed()),
+        Str => one(text_strategy()),
+        PathV => one(path_strategy()),
+        PathList => list_of(path_strategy()),
+        StrList if o.cli == "tal" => list_of(tal_name_strategy()),
+        StrList => list_of(text_strategy()),
+        Policy => one(prop::sample::select(vec!["reject", "warn", "accept"]).prop_map(String::from).boxed()),
+        Fallback => one(prop::sample::select(vec!["never", "stale", "new"]).prop_map(String::from).boxed()),
+        Ip => one(ip_strategy()),
+        SockList => list_of(sock_strategy()),
+        Count => one((1u8..=3).prop_map(|v| v.to_string()).boxed()),
+        Facility => one(facility_strategy()),
+        Logfile => one(prop_oneof![1 => Just("-".to_string()), 4 => path_strategy()].boxed()),
+    }
+}
+
+fn toml_str(s: &str) -> String {
+    toml_edit::Value::from(s).to_string()
+}
+
+fn toml_list(v: &[String]) -> String {
+    format!("[{}]", v.iter().map(|s| toml_str(s)).collect::<Vec<_>>().join(", "))
+}
+
+/// Entries of a base config file for an option, in the file's own notation.
+fn base_entry_strategy(o: &'static Opt) -> BoxedStrategy<Vec<(String, String)>> {
+    let key = o.key.to_string();
+    let k1 = move |text: String| vec![(key.clone(), text)];
+    match o.kind {
+        Flag if o.cli == "syslog" => Just(Vec::new()).boxed(),
+        Flag => any::<bool>().prop_map(move |b| k1(b.to_string())).boxed(),
+        // the file format holds i64 integers; the two u16-limited keys are documented as such by the reader
+        Num => {
+            let small = o.cli == "validation-threads" || o.cli == "history";
+            prop_oneof![Just(0u64), Just(1), Just(65535), 2u64..1000, if small { Just(65535u64).boxed() } else { prop_oneof![Just(65536u64), Just(1u64 << 32), Just(I64MAX), 65536u64..I64MAX].boxed() }]
+                .prop_map(move |v| k1(v.to_string()))
+                .boxed()
+        }
+        Small(max) => (0..=max).prop_map(move |v| k1(v.to_string())).boxed(),
+        Str => text_strategy().prop_map(move |s| k1(toml_str(&s))).boxed(),
+        PathV => path_strategy().prop_map(move |s| k1(toml_str(&s))).boxed(),
+        PathList if o.cli == "exceptions" => prop_oneof![
+            path_strategy().prop_map({
+                let k1 = k1.clone();
+                move |s| k1(toml_str(&s))
+            }),
+            prop::collection::vec(path_strategy(), 0..=3).prop_map(move |v| k1(toml_list(&v))),
+        ]
+        .boxed(),
+        PathList => prop::collection::vec(path_strategy(), 0..=3).prop_map(move |v| k1(toml_list(&v))).boxed(),
+        StrList if o.cli == "tal" => prop::collection::vec(tal_name_strategy(), 0..=3).prop_map(move |v| k1(toml_list(&v))).boxed(),
+        StrList => prop::collection::vec(text_strategy(), 0..=3).prop_map(move |v| k1(toml_list(&v))).boxed(),
+        Policy => prop::sample::select(vec!["reject", "warn", "accept"]).prop_map(move |s| k1(toml_str(s))).boxed(),
+        Fallback => prop::sample::select(vec!["never", "stale", "new"]).prop_map(move |s| k1(toml_str(s))).boxed(),
+        Ip => ip_strategy().prop_map(move |s| k1(toml_str(&s))).boxed(),
+        SockList => prop::collection::vec(sock_strategy(), 0..=3).prop_map(move |v| k1(toml_list(&v))).boxed(),
+        // log-level / log target are generated as groups below
+        Count | Facility | Logfile => Just(Vec::new()).boxed(),
+    }
+}
+
+fn base_strategy() -> BoxedStrategy<Vec<(String, String)>> {
+    let mut parts: Vec<BoxedStrategy<Vec<(String, String)>>> = Vec::new();
+    for o in OPTS {
+        if o.cli == "quiet" {
+            continue;
+        }
+        parts.push(prop_oneof![9 => Just(Vec::new()), 1 => base_entry_strategy(o)].boxed());
+    }
+    // log level
+    parts.push(
+        prop_oneof![
+            3 => Just(Vec::new()),
+            1 => prop::sample::select(vec!["off", "error", "warn", "info", "debug", "trace", "WARN", "Info"]).prop_map(|s| vec![("log-level".to_string(), toml_str(s))]),
+        ]
+        .boxed(),
+    );
+    // log target variants
+    parts.push(
+        prop_oneof![
+            3 => Just(Vec::new()),
+            1 => Just(vec![("log".to_string(), toml_str("default"))]),
+            1 => Just(vec![("log".to_string(), toml_str("stderr"))]),
+            1 => facility_strategy().prop_map(|f| vec![("log".to_string(), toml_str("syslog")), ("syslog-facility".to_string(), toml_str(&f))]),
+            1 => facility_strategy().prop_map(|f| vec![("syslog-facility".to_string(), toml_str(&f))]),
+            2 => path_strategy().prop_map(|p| vec![("log".to_string(), toml_str("file")), ("log-file".to_string(), toml_str(&p))]),
+        ]
+        .boxed(),
+    );
+    // options that only exist in the file
+    parts.push(prop_oneof![2 => Just(Vec::new()), 1 => prop::collection::vec(text_strategy(), 0..=3).prop_map(|v| vec![("rsync-args".to_string(), toml_list(&v))])].boxed());
+    parts.push(
+        prop_oneof![
+            1 => Just(Vec::new()),
+            2 => prop::collection::btree_map(text_strategy(), text_strategy(), 0..=3).prop_map(|m| {
+                vec![("tal-labels".to_string(), format!("[{}]", m.iter().map(|(k, v)| format!("[{}, {}]", toml_str(k), toml_str(v))).collect::<Vec<_>>().join(", ")))]
+            }),
+        ]
+        .boxed(),
+    );
+    parts.prop_map(|v| v.into_iter().flatten().collect()).boxed()
+}
+
+fn case_strategy() -> BoxedStrategy<Case> {
+    let mut parts: Vec<BoxedStrategy<Option<Arg>>> = Vec::new();
+    for o in OPTS {
+        let name = o.cli.to_string();
+        let s = vals_strategy(o).prop_map(move |vals| Arg { opt: name.clone(), vals });
+        parts.push(prop::option::weighted(0.12, s).boxed());
+    }
+    (prop::option::weighted(0.4, base_strategy()), parts)
+        .prop_map(|(base, args)| {
+            let mut args: Vec<Arg> = args.into_iter().flatten().collect();
+            // -v and -q exclude each other on the command line (clap: conflicts_with)
+            if args.iter().any(|a| a.opt == "verbose") {
+                args.retain(|a| a.opt != "quiet");
+            }
+            Case { base, args }
+        })
+        .boxed()
+}
+
+//------------ evaluation --------------------------------------------------------------------------
+
+struct Env {
+    /// working directory of the routinator invocations
+    cwd: PathBuf,
+    /// directory of the base config file (different from cwd on purpose)
+    base_dir: PathBuf,
+}
+
+fn cli() -> Command {
+    Operation::config_args(Config::config_args(Command::new("Routinator")))
+}
+
+enum LoadErr {
+    Cli(String),
+    Config,
+    Operation,
+}
+
+/// The steps of `main.rs` up to (not including) `operation.run`.
+fn load(args: &[String], cwd: &Path) -> Result<Config, LoadErr> {
+    let matches = cli().try_get_matches_from(args).map_err(|e| LoadErr::Cli(e.to_string()))?;
+    let mut config = Config::from_arg_matches(&matches, cwd).map_err(|_| LoadErr::Config)?;
+    Operation::from_arg_matches(&matches, cwd, &mut config).map_err(|_| LoadErr::Operation)?;
+    Ok(config)
+}
+
+fn load_printed(text: &str, env: &Env) -> Result<Config, LoadErr> {
+    let path = env.cwd.join("printed.conf");
+    std::fs::write(&path, text).expect("write printed config");
+    load(&["routinator".to_string(), "--config=printed.conf".to_string(), "config".to_string()], &env.cwd)
+}
+
+/// Names of the pub fields of `Config` in which a and b differ.
+fn diff_fields(a: &Config, b: &Config) -> Vec<&'static str> {
+    let mut d = Vec::new();
+    macro_rules! cmp {
+        ($($f:ident),* $(,)?) => { $( if a.$f != b.$f { d.push(stringify!($f)); } )* };
+    }
+    cmp!(
+        config_file, cache_dir, no_rir_tals, bundled_tals, extra_tals_dir, exceptions, strict, stale, unsafe_vrps, unknown_objects, limit_v4_len, limit_v6_len,
+        allow_dubious_hosts, fresh, disable_rsync, rsync_command, rsync_args, rsync_timeout, disable_rrdp, rrdp_fallback, rrdp_fallback_time, rrdp_max_delta_count,
+        rrdp_max_delta_list_len, rrdp_timeout, rrdp_read_timeout, rrdp_connect_timeout, rrdp_tcp_keepalive, rrdp_local_addr, rrdp_root_certs, rrdp_proxies, rrdp_user_agent,
+        max_object_size, max_ca_depth, enable_bgpsec, enable_aspa, dirty_repository, validation_threads, refresh, min_refresh, retry, expire, history_size, rtr_listen,
+        rtr_tls_listen, http_listen, http_tls_listen, systemd_listen, rtr_tcp_keepalive, rtr_client_metrics, rtr_tls_key, rtr_tls_cert, http_tls_key, http_tls_cert, log_level,
+        log_target, log_repository_issues, pid_file, working_dir, chroot, user, group, tal_labels,
+    );
+    if d.is_empty() && a != b {
+        d.push("(field unknown to the harness)");
+    }
+    d
+}
+
+fn field_debug(c: &Config, f: &str) -> String {
+    // Debug output of the whole struct is long; pick the field's line from the pretty form.
+    let all = format!("{:#?}", c);
+    let needle = format!("    {}: ", f);
+    match all.find(&needle) {
+        Some(i) => {
+            let rest = &all[i + needle.len()..];
+            let mut out = String::new();
+            for line in rest.lines() {
+                if !out.is_empty() && !line.starts_with("     ") && !line.starts_with("    ]") && !line.starts_with("    )") && !line.starts_with("    }") {
+                    break;
+                }
+                out.push_str(line.trim());
+                out.push(' ');
+            }
+            truncate(out.trim_end_matches([' ', ',']), 300)
+        }
+        None => "?".into(),
+    }
+}
+
+/// Who set `field` / `key` in this case: the command line wins over the base file.
+fn culprit(case: &Case, field: Option<&str>, key: Option<&str>) -> Option<(String, String)> {
+    let matches = |o: &Opt| field.map(|f| o.field == f).unwrap_or(false) || key.map(|k| o.key == k).unwrap_or(false);
+    // Prefer the most specific option for the log target group.
+    let mut hits: Vec<(&Opt, Vec<String>)> = Vec::new();
+    for a in &case.args {
+        if let Some(o) = opt(&a.opt) {
+            if matches(o) {
+                hits.push((o, a.vals.clone()));
+            }
+        }
+    }
+    if let Some(base) = &case.base {
+        for (k, text) in base {
+            for o in OPTS.iter().filter(|o| o.key == k && o.cli != "quiet" && o.cli != "syslog") {
+                if matches(o) && !hits.iter().any(|h| h.0.cli == o.cli) {
+                    hits.push((o, base_values(text)));
+                }
+            }
+        }
+    }
+    // syslog-facility is more specific than syslog
+    hits.sort_by_key(|h| match h.0.cli {
+        "syslog-facility" => 0,
+        "logfile" => 1,
+        _ => 2,
+    });
+    hits.first().map(|(o, vals)| (o.cli.to_string(), value_class(o, vals)))
+}
+
+/// Values of a base file entry (TOML text) as plain strings.
+fn base_values(text: &str) -> Vec<String> {
+    let doc: Result<toml_edit::DocumentMut, _> = format!("x = {}", text).parse();
+    let Ok(doc) = doc else { return vec![text.to_string()] };
+    fn flat(v: &toml_edit::Value, out: &mut Vec<String>) {
+        match v {
+            toml_edit::Value::String(s) => out.push(s.value().clone()),
+            toml_edit::Value::Integer(i) => out.push(i.value().to_string()),
+            toml_edit::Value::Boolean(b) => out.push(b.value().to_string()),
+            toml_edit::Value::Array(a) => a.iter().for_each(|x| flat(x, out)),
+            other => out.push(other.to_string()),
+        }
+    }
+    let mut out = Vec::new();
+    if let Some(v) = doc.get("x").and_then(|i| i.as_value()) {
+        flat(v, &mut out);
+    }
+    out
+}
+
+/// Finds the first key (in file order sorted by key) of the printed file that makes loading fail:
+/// keys are added one by one to a file that only has `repository-dir`.
+fn offending_key(printed: &str, env: &Env) -> Option<String> {
+    let doc: toml_edit::DocumentMut = printed.parse().ok()?;
+    let mut keys: Vec<String> = doc.iter().map(|(k, _)| k.to_string()).collect();
+    keys.sort();
+    let mut cur = toml_edit::DocumentMut::new();
+    if let Some(item) = doc.get("repository-dir") {
+        cur.insert("repository-dir", item.clone());
+    }
+    if load_printed(&cur.to_string(), env).is_err() {
+        return Some("repository-dir".into());
+    }
+    for k in keys {
+        if k == "repository-dir" {
+            continue;
+        }
+        cur.insert(&k, doc.get(&k).unwrap().clone());
+        if load_printed(&cur.to_string(), env).is_err() {
+            return Some(k);
+        }
+    }
+    None
+}
+
+/// Candidate finding keys an argument could hit; used for the exclusion of listed findings.
+fn candidate_keys(o: &Opt, vals: &[String]) -> Vec<String> {
+    vec![key_for(o.cli, &value_class(o, vals)), key_for(o.cli, "not_printed")]
+}
+
+/// Removes the exact shapes of listed findings from a case (exclusion by construction); returns the keys hit.
+fn strip_known(known: &BTreeSet<String>, case: &Case) -> (Case, Vec<String>) {
+    if known.is_empty() {
+        return (case.clone(), Vec::new());
+    }
+    let mut hit = Vec::new();
+    let mut out = case.clone();
+    out.args.retain(|a| {
+        let Some(o) = opt(&a.opt) else { return true };
+        match candidate_keys(o, &a.vals).into_iter().find(|k| known.contains(k)) {
+            Some(k) => {
+                hit.push(k);
+                false
+            }
+            None => true,
+        }
+    });
+    if let Some(base) = out.base.as_mut() {
+        base.retain(|(k, text)| {
+            for o in OPTS.iter().filter(|o| o.key == k && o.cli != "quiet" && o.cli != "syslog") {
+                let vals = base_values(text);
+                // a `false` flag or an empty list in the file is the default and prints nothing by design
+                let effective = match o.kind {
+                    Flag => vals.first().map(|v| v == "true").unwrap_or(false),
+                    StrList | PathList | SockList => !vals.is_empty(),
+                    _ => true,
+                };
+                if !effective {
+                    continue;
+                }
+                if let Some(k) = candidate_keys(o, &vals).into_iter().find(|k| known.contains(k)) {
+                    hit.push(k);
+                    return false;
+                }
+            }
+            true
+        });
+    }
+    (out, hit)
+}
+
+fn evaluate(case: &Case, env: &Env, info: &mut CaseInfo) -> Verdict {
+    // classes
+    let mut nondefault = case.args.len();
+    for a in &case.args {
+        if let Some(o) = opt(&a.opt) {
+            info.class(format!("opt:{}", o.cli));
+            match o.kind {
+                Num => info.class(format!("num:{}", a.vals.first().map(|s| num_class(s)).unwrap_or("none"))),
+                Str | PathV | Logfile | PathList | StrList => info.class(format!("text:{}", value_class(o, &a.vals))),
+                _ => {}
+            }
+            if matches!(o.kind, PathList | StrList | SockList) {
+                info.class(format!("list_len:{}", a.vals.len()));
+            }
+        }
+    }
+    if let Some(b) = &case.base {
+        info.class("base_file");
+        nondefault += b.len();
+        for (k, _) in b {
+            info.class(format!("base:{}", k));
+        }
+    }
+    info.nt(nondefault >= 3);
+
+    // A: command line (+ base file)
+    let base_path = case.base.as_ref().map(|entries| {
+        let mut text = String::new();
+        if !entries.iter().any(|(k, _)| k == "repository-dir") {
+            text.push_str("repository-dir = \"base-cache\"\n");
+        }
+        for (k, v) in entries {
+            text.push_str(&format!("{} = {}\n", k, v));
+        }
+        let p = env.base_dir.join("base.conf");
+        std::fs::write(&p, text).expect("write base config");
+        p
+    });
+    let argv = case.command_line(base_path.as_deref());
+    let a = match load(&argv, &env.cwd) {
+        Ok(c) => c,
+        // not a configuration routinator accepts: outside the property's domain (generator problem, counted)
+        Err(LoadErr::Cli(e)) => return Verdict::Dropped(format!("cli_rejected:{}", truncate(e.lines().next().unwrap_or(""), 60))),
+        Err(LoadErr::Config) => return Verdict::Dropped("base_file_rejected".into()),
+        Err(LoadErr::Operation) => return Verdict::Dropped("operation_rejected".into()),
+    };
+    // F: what `routinator config` prints (PrintConfig::run: println!("{}", config))
+    let printed = format!("{}\n", a);
+    // B: read back
+    let b = match load_printed(&printed, env) {
+        Ok(b) => b,
+        Err(_) => {
+            let bad = offending_key(&printed, env);
+            let (o, class) = bad.as_deref().and_then(|k| culprit(case, None, Some(k))).unwrap_or_else(|| (format!("key:{}", bad.clone().unwrap_or_else(|| "?".into())), "unset".into()));
+            let line = bad.as_deref().and_then(|k| printed.lines().find(|l| l.starts_with(&format!("{} =", k)))).unwrap_or("").to_string();
+            return Verdict::fail(
+                key_for(&o, &class),
+                format!("`{}` prints a file that routinator rejects as config file; offending entry: `{}` (set by option {} with value class {})", argv.join(" "), truncate(&line, 200), o, class),
+            );
+        }
+    };
+    let mut b = b;
+    b.config_file = a.config_file.clone();
+    let diffs = diff_fields(&a, &b);
+    if diffs.is_empty() {
+        return Verdict::Pass;
+    }
+    let field = diffs[0];
+    let printed_keys: BTreeSet<String> = printed.parse::<toml_edit::DocumentMut>().map(|d| d.iter().map(|(k, _)| k.to_string()).collect()).unwrap_or_default();
+    let (o, mut class) = culprit(case, Some(field), None).unwrap_or_else(|| (format!("field:{}", field), "unset".into()));
+    if let Some(op) = opt(&o) {
+        if !op.key.is_empty() && !printed_keys.contains(op.key) {
+            class = "not_printed".into();
+        }
+    }
+    Verdict::fail(
+        key_for(&o, &class),
+        format!(
+            "`{}`: field {} differs after print + read back: configured {} but read back {} (all differing fields: {:?})",
+            argv.join(" "),
+            field,
+            field_debug(&a, field),
+            field_debug(&b, field),
+            diffs
+        ),
+    )
+}
+
+/// The clap definitions must be covered by the option table (else the harness needs an update: exit 2).
+fn preamble() {
+    let cmd = cli();
+    let mut missing = Vec::new();
+    let mut seen = BTreeSet::new();
+    for a in cmd.get_arguments() {
+        if let Some(l) = a.get_long() {
+            seen.insert(l.to_string());
+            if opt(l).map(|o| o.server).unwrap_or(true) && !CLI_ONLY.contains(&l) {
+                missing.push(format!("global --{}", l));
+            }
+        }
+    }
+    let sub = cmd.find_subcommand("config").expect("config sub-command");
+    for a in sub.get_arguments() {
+        if let Some(l) = a.get_long() {
+            seen.insert(l.to_string());
+            if opt(l).map(|o| !o.server).unwrap_or(true) && !CLI_ONLY.contains(&l) {
+                missing.push(format!("config --{}", l));
+            }
+        }
+    }
+    for o in OPTS {
+        if !seen.contains(o.cli) {
+            missing.push(format!("table entry --{} has no clap definition", o.cli));
+        }
+    }
+    if !missing.is_empty() {
+        eprintln!("C35: option table out of date: {:?}", missing);
+        std::process::exit(2);
+    }
+}
+
+/// Directed representatives (one per suspected/listed shape): (option, extra options, values).
+fn directed() -> Vec<Case> {
+    let arg = |o: &str, v: &[&str]| Arg { opt: o.to_string(), vals: v.iter().map(|s| s.to_string()).collect() };
+    let big = (I64MAX + 1).to_string();
+    let mut v = vec![
+        Case { base: None, args: vec![arg("tal", &["nlnetlabs-testbed"])] },
+        Case { base: None, args: vec![arg("no-rir-tals", &[])] },
+        Case { base: None, args: vec![arg("validation-threads", &["65536"])] },
+        Case { base: None, args: vec![arg("history", &["65536"])] },
+        Case { base: None, args: vec![arg("syslog", &[]), arg("syslog-facility", &["clock_daemon"])] },
+    ];
+    for o in OPTS.iter().filter(|o| o.kind == Num) {
+        v.push(Case { base: None, args: vec![arg(o.cli, &[&big])] });
+    }
+    v
+}
+
+pub fn run(ctx: &Ctx, rep: &mut Report, replay: Option<&serde_json::Value>) {
+    rep.rule("command lines generated from routinator's clap definitions (every global option and every option of the `config` sub-command except the documented command-line-only --config/--fresh; each present with p=0.12; numbers at 0, 1, 65535, 65536, 2^32, i64::MAX, i64::MAX+1, u64::MAX and random; lists of 1-3 values; strings/paths with quotes, newlines, control characters, Unicode, absolute and relative), optionally on top of a generated base config file in another directory (any option in file notation, log target variants, log-level, rsync-args, tal-labels); non-trivial = at least 3 options/entries set; distinct by serialised case");
+    rep.assume("paths are valid UTF-8 (TOML strings cannot hold other paths; stated limit of the domain); `--tal list` is a command, not a configuration");
+    rep.assume("the in-process steps Config::from_arg_matches + Operation::from_arg_matches + Display are exactly what the binary's main() executes for `routinator config`");
+    // no $HOME/.routinator.conf may leak into the check
+    let scratch = ctx.scratch();
+    let home = scratch.path().join("home");
+    let env = Env { cwd: scratch.path().join("cwd"), base_dir: scratch.path().join("elsewhere").join("etc") };
+    for d in [&home, &env.cwd, &env.base_dir] {
+        std::fs::create_dir_all(d).expect("mkdir");
+    }
+    std::env::set_var("HOME", &home);
+    preamble();
+    if let Some(v) = replay {
+        let t: Tagged<Case> = serde_json::from_value(v.clone()).expect("replay");
+        run_case(ctx, rep, "cli", &t.case, |c, i| evaluate(c, &env, i));
+        return;
+    }
+    // Listed findings are excluded by construction: the generator removes exactly the option whose
+    // (option, value class) is a listed key and keeps the rest of the command line.
+    let known: BTreeSet<String> = if ctx.strict { BTreeSet::new() } else { ctx.known.iter().filter(|k| k.property == ctx.id && k.status == "known").map(|k| k.key.clone()).collect() };
+    let excluded: std::sync::Arc<Mutex<BTreeMap<String, u64>>> = Default::default();
+    let strategy = {
+        let excluded = excluded.clone();
+        case_strategy().prop_map(move |case| {
+            let (stripped, hit) = strip_known(&known, &case);
+            if !hit.is_empty() {
+                let mut e = excluded.lock().unwrap();
+                for k in hit {
+                    *e.entry(k).or_default() += 1;
+                }
+            }
+            stripped
+        })
+    };
+    run_prop(ctx, rep, "cli", ctx.tier.pick(30_000, 600_000), strategy, |case, info| evaluate(case, &env, info));
+    let excluded = std::mem::take(&mut *excluded.lock().unwrap());
+    for (k, n) in excluded {
+        for _ in 0..n {
+            rep.exclude_known(&k);
+        }
+    }
+    if rep.violated() {
+        return;
+    }
+    for case in directed() {
+        run_case(ctx, rep, "cli", &case, |c, i| evaluate(c, &env, i));
+    }
 }
